@@ -170,7 +170,8 @@ class KvRun(object):
             k = ch.weighted([5, 2, 2, 2, 2], 'dlkind')
             t = '%s.%d' % (tag, q)
             if k == 1:
-                t = ch.pick(['other', 'k2', key + 'x', 'x' + key], 'dk') + '=' + t
+                # x=y lines whose x is unrelated to, contains, or is a proper substring of the requested key
+                t = ch.pick(['other', 'k2', key + 'x', 'x' + key, '', key[:4], key[-2:], key.split('/')[0], key[1:]], 'dk') + '=' + t
                 sim.probe('dataline-key=value')
             elif k == 2:
                 t = '.' + ch.pick(['', '.', t, ' x'], 'dot')
